@@ -303,6 +303,57 @@ theorem peek_agrees_with_pop {β : Type} {B : Backend T β} {wf : β → Prop}
   simp only [Spec.step]
   cases best (live ops) <;> rfl
 
+/-- the `default` argument plays no role unless the queue is empty - whichever object it is, in particular
+    when it IS (or equals) the head task itself (`pop(None)` on a queue holding the task `None`): `pop(d)`
+    returns what `pop()` returns and leaves exactly the live tasks `pop()` leaves, so the head task is
+    gone afterwards; on an empty queue both leave it empty -/
+theorem pop_removes_head_whatever_the_default {β : Type} {B : Backend T β} {wf : β → Prop}
+    {content : β → List (Entry T)} (L : Lawful B wf content) (ops : List (Op T)) (d : Option Nat) :
+    live (ops ++ [.pop d]) = live (ops ++ [.pop none]) ∧
+    (live ops ≠ [] → nextOut B ops (.pop d) = nextOut B ops (.pop none) ∧
+      (live (ops ++ [.pop d])).length + 1 = (live ops).length ∧
+      ∀ t, nextOut B ops (.pop d) = .task t → t ∉ (live (ops ++ [.pop d])).map Prod.fst) := by
+  have happ : ∀ op : Op T, live (ops ++ [op]) = ((live ops).step op).1 := by
+    intro op
+    show (Spec.runFrom [] (ops ++ [op])).1 = _
+    rw [runFrom_append]
+    simp only [Spec.runFrom]
+    rfl
+  refine ⟨?_, fun hne => ?_⟩
+  · rw [happ, happ]
+    simp only [Spec.step]
+    cases best (live ops) <;> rfl
+  · rw [nextOut_eq_spec L, nextOut_eq_spec L, happ]
+    simp only [Spec.step]
+    cases hb : best (live ops) with
+    | none => exact absurd ((best_eq_none _).mp hb) hne
+    | some x =>
+      obtain ⟨pre, post, h1, _, _⟩ := best_decomp (live ops) x hb
+      have hnd := live_tasks_nodup ops
+      refine ⟨rfl, ?_, ?_⟩
+      · simp only []
+        rw [h1] at hnd ⊢
+        have hpre : ∀ y ∈ pre, y.1 ≠ x.1 := by
+          intro y hy he
+          rw [List.map_append, List.map_cons] at hnd
+          have := (List.nodup_append.mp hnd).2.2 y.1 (List.mem_map_of_mem hy) x.1 (by simp)
+          exact this he
+        have hpost : ∀ y ∈ post, y.1 ≠ x.1 := by
+          intro y hy he
+          rw [List.map_append, List.map_cons] at hnd
+          have h2 := (List.nodup_cons.mp (List.nodup_append.mp hnd).2.1).1
+          exact h2 (he ▸ List.mem_map_of_mem hy)
+        have e1 : pre.filter (taskNe x.1) = pre :=
+          List.filter_eq_self.mpr (fun y hy => by simp [taskNe, hpre y hy])
+        have e2 : post.filter (taskNe x.1) = post :=
+          List.filter_eq_self.mpr (fun y hy => by simp [taskNe, hpost y hy])
+        simp [List.filter_append, e1, e2, taskNe]
+        omega
+      · intro t ht
+        simp only [Out.task.injEq] at ht
+        subst ht
+        simp [List.mem_filter, taskNe]
+
 /-- `peek` and `len` are pure observations although `peek` culls tombstones from the backend: deleting
     every `peek` / `len` call from a history changes neither the live tasks nor the return value of any
     remaining call (`add`, `remove`, `pop`) -/
@@ -744,6 +795,14 @@ example : HeapOrder (fun a b : Nat => decide (a < b)) :=
   ⟨fun a b h => by simp at h ⊢; omega, fun a b c h1 h2 => by simp at h1 h2 ⊢; omega⟩
 example : (PQ.run binHeap exOps).2 = (PQ.run (sortedBackend (fun _ => 2)) exOps).2 := by decide
 example : (PQ.run binHeap (exOps.take 6)).1.pq.length = 6 := by decide
+
+/-- `pop_removes_head_whatever_the_default`: task 7 heads the queue and default #1000007 (the driver's name
+    for "the task object 7 itself") is given: 7 is returned and gone, the next pop reaches task 8; on the
+    emptied queue that default comes back and is shown as the task object it is -/
+example : nextOut binHeap [.add 7 1, .add 8 0] (.pop (some (Driver.taskDefaultBase + 7))) = .task 7 ∧
+    live ([.add 7 1, .add 8 0] ++ [.pop (some (Driver.taskDefaultBase + 7))]) = [((8 : Nat), (0 : Int))] ∧
+    (PQ.run binHeap [.add 7 1, .add 8 0, .pop (some 1000007), .pop (some 1000007), .pop (some 1000007)]).2.map
+      Driver.showOut = ["-", "-", "t7", "t8", "t7"] := by decide
 
 end Examples
 
